@@ -1,5 +1,8 @@
-(* C11 - the remote server survives every client failure.  Model: Server/Model.v. *)
+(* C11 - the remote server survives every client failure.  Model: Server/Model.v, parameterised by the decisions of
+   RemoteServer.run which tools/py2coq/gen_serverloop.py reads off the source on every run (Gen/ServerLoop.v): the per-client
+   guard of the accept loop, what it lets escape, how unknown and duplicate context ids are answered. *)
 From PW Require Import Server.Model.
+From PW Require Gen.ServerLoop.
 Open Scope Z_scope.
 
 (* for EVERY sequence of client sessions - any request kind, vanishing at any stage (nothing sent,
@@ -21,6 +24,21 @@ Theorem C11_next_healthy_client_is_served :
     snd (serve (fst (serve_all s sessions)) (mkSession RWorker PComplete)) = Handshake.
 Proof. exact healthy_client_served. Qed.
 
+(* the accept loop of the current source has the shape the theorems above are about *)
+Lemma C11_server_loop_shape : good_sflags Gen.ServerLoop.gen_sflags.
+Proof. repeat split; reflexivity. Qed.
+
+(* without the per-client guard (as the loop was before its repair) the first client that connects and goes away ends
+   the server - and with it every other client's workers *)
+Theorem C11_refuted_without_the_per_client_guard :
+  exists f x, guard_per_client f = false /\ up (fst (serve_f f srv0 x)) = false.
+Proof. exists (mkSF false false true true true true true), (mkSession RWorker PNothing). split; reflexivity. Qed.
+
+(* ... and so does a guard which lets more than the two termination signals escape *)
+Theorem C11_refuted_if_the_guard_lets_other_exceptions_escape :
+  exists f x, guard_per_client f = true /\ only_termination_escapes f = false /\ up (fst (serve_f f srv0 x)) = false.
+Proof. exists (mkSF true true false true true true true), (mkSession (RCtxCreate 1) PPayloadCut). repeat split; reflexivity. Qed.
+
 Example C11_example :
   snd (serve_all srv0 [mkSession RWorker PHeaderCut; mkSession (RCtxCreate 1) PPayloadCut; mkSession RWorker PNoCtrl;
                        mkSession (RWorkerCtx 7) PComplete; mkSession RWorker PComplete])
@@ -30,3 +48,5 @@ Proof. vm_compute. reflexivity. Qed.
 Print Assumptions C11_server_survives_every_session_sequence.
 Print Assumptions C11_faulty_client_disturbs_nobody.
 Print Assumptions C11_next_healthy_client_is_served.
+Print Assumptions C11_refuted_without_the_per_client_guard.
+Print Assumptions C11_refuted_if_the_guard_lets_other_exceptions_escape.
